@@ -49,7 +49,9 @@ var compileClasses = []struct {
 	{"duplicate-param", regexp.MustCompile(`duplicate argument`)},
 	{"field-method-clash", regexp.MustCompile(`field and method with the same name`)},
 	{"duplicate-case", regexp.MustCompile(`duplicate case`)},
-	{"not-exported", regexp.MustCompile(`not exported by package|cannot refer to unexported`)},
+	// `undefined: pkg._Name` / `undefined: pkg.name`: cmd/compile imports export data, in which an unexported name that no
+	// exported declaration reaches does not exist at all; go/types on source says "not exported" for the same program
+	{"not-exported", regexp.MustCompile(`not exported by package|cannot refer to unexported|undefined: [A-Za-z_][A-Za-z0-9_]*\.[a-z_][A-Za-z0-9_]*$`)},
 	{"invalid-map-key", regexp.MustCompile(`invalid map key type`)},
 	{"address-of-constant", regexp.MustCompile(`cannot take address of`)},
 	{"unused-import", regexp.MustCompile(`imported and not used`)},
@@ -99,6 +101,12 @@ func classifyCompile(msgs []string) (string, string) {
 				continue
 			}
 			if c.re.MatchString(stripPos(m)) {
+				if c.class == "redeclared" && strings.Contains(m, "ThriftGoUnusedProtection redeclared") {
+					// fastgo writes package-level code once per FILE: two files of one go namespace give either a k-file that
+					// imports its own package (when the include is referred to) or this redeclaration (when it is not) —
+					// one root cause (D20), one class
+					return "import-error", m
+				}
 				if c.class == "redeclared" {
 					// WHAT is declared twice tells root causes apart: a local of a method (parameters are lower-cased,
 					// package-level names of thriftgo are exported or carry a fixed prefix), a name that is itself the
